@@ -41,6 +41,7 @@ ASSUMPTIONS = [
 ]
 MINIMUMS = {"monitor:lookup": 50000, "monitor:lookup-default": 50000, "shadowing_lookups": 3000, "explicit_default_wins": 3000, "missing_state": 3000, "disposable_supplied": 300, "programs_with_prepared_scopes": 300}
 JOBS = {"quick": 4, "thorough": 16}
+OPTIMIZED_SHARDS = {"quick": 2, "thorough": 16}  # the same cases once more under `python -O`
 LEVEL_TEXT = (
     "All forests of up to 3 blocks with every kind assignment and every supplied-subset assignment over {D1, R1} (quick) / {D1, R1, SubD1} (thorough) are executed and "
     "probed at every position, plus seeded random programs up to 12 blocks over 8 types (defaultable, required, subclass, two specialisations of one generic) with duplicate "
